@@ -369,7 +369,7 @@ pub fn run(ctx: &Ctx) -> PropResult {
     wls.push(Workload::cases("api_walks", ctx.count(30_000, 1_500_000), |rec, _, rng| super::walk::walk(rec, rng, "C04", super::walk::Family::Arithmetic)));
     let out = run_workloads(ctx, wls);
     let mut meta = PropMeta::default();
-    meta.rule = "instant (8 strata, all eras, two-day margin) x offset (whole ±86399 s) x method (14 add_/sub_ methods round-robin) x count from {0..100, u32::MAX−0..2, 2^31±1, the counts at which count·unit crosses 2^63/2^64 ns ±2, the model-computed last representable count −1..+2, <2^20, uniform u32}; Durations {sub-day, multi-day, 2^32 days+ε, u64::MAX s, at the representability edge ±{1 ns,1 s,1 d}, wide}; DateTime ± Time; Date add/sub_days and ± Duration (whole days). Oracle: i128 instant arithmetic — representable ⇒ exact instant, same offset, day-nanoseconds < 24 h; not representable ⇒ the call must panic (any panic). Non-trivial = count > 100, BC start, era crossing or unrepresentable target (methods); every operator case. Distinct by input hash.".into();
+    meta.rule = "instant (8 strata, all eras, two-day margin) x offset (whole ±86399 s) x method (14 add_/sub_ methods round-robin) x count from {0..100, u32::MAX−0..2, 2^31±1, the counts at which count·unit crosses 2^63/2^64 ns ±2, the model-computed last representable count −1..+2, <2^20, uniform u32}; Durations {sub-day, multi-day, 2^32 days+ε, u64::MAX s, at the representability edge ±{1 ns,1 s,1 d}, wide}; DateTime ± Time (incl. amounts that land the result exactly on a midnight ± 1 ns); random API walks of 4–14 steps in which arithmetic steps are judged and set_*/clear/month/offset steps only move the state, every step observed through nanos_since, timestamp()+nano(), all getters and as_ymdhms; Date add/sub_days and ± Duration (whole days). Oracle: i128 instant arithmetic — representable ⇒ exact instant, same offset, day-nanoseconds < 24 h; not representable ⇒ the call must panic (any panic). Non-trivial = count > 100, BC start, era crossing or unrepresentable target (methods); every operator case. Distinct by input hash.".into();
     meta.required_bins = vec![
         "count/0..100", "count/u32::MAX-0..2", "count/2^31±1", "count/64-bit-wrap-threshold", "count/at-representability-edge", "count/uniform-u32",
         "add_hours/representable", "add_hours/unrepresentable", "sub_minutes/representable", "sub_nanos/unrepresentable", "add_days/unrepresentable", "sub_days/representable",
